@@ -3,6 +3,8 @@ package main
 // rules_lifecycle.go: C10 — only live, enabled rules fire (DISP-ENABLED, REM-FLAG; GATE-E and CACHE-INV are shared).
 
 import (
+	"go/types"
+	"go/token"
 	"golang.org/x/tools/go/ssa"
 )
 
@@ -103,6 +105,62 @@ func ruleDispEnabled(w *World, r *Report) {
 			r.ok("DISP-ENABLED", key, w.PosOf(s), "dispatch only behind RuleEnabled == true (or the embedded-rule bypass)")
 		}
 	}
+	// the id asked about is the id under which the candidate was found: the key of the ranged map, or a
+	// field that was set from that key at a point dominating the question
+	allInstrs(fn, func(in ssa.Instruction) {
+		c := callOf(in)
+		if c == nil || !a.isLocMethod(c, "RuleEnabled") {
+			return
+		}
+		var idArg ssa.Value
+		for _, arg := range c.Args {
+			if b, ok := arg.Type().Underlying().(*types.Basic); ok && b.Kind() == types.String {
+				idArg = arg
+			}
+		}
+		k2 := "fn=" + fname(fn) + " id-of-RuleEnabled"
+		if idArg == nil {
+			return
+		}
+		isRangeKey := func(v ssa.Value) bool {
+			ex, ok := v.(*ssa.Extract)
+			if !ok || ex.Index != 1 {
+				return false
+			}
+			_, ok = ex.Tuple.(*ssa.Next)
+			return ok
+		}
+		if isRangeKey(idArg) {
+			r.ok("DISP-ENABLED", k2, w.PosOf(in), "asks about the key under which the candidate rule was found")
+			return
+		}
+		if ld, ok := idArg.(*ssa.UnOp); ok && ld.Op == token.MUL {
+			if fa, ok := ld.X.(*ssa.FieldAddr); ok {
+				// a store of a range key into the same field of the same object that dominates the call
+				set := false
+				allInstrs(fn, func(x ssa.Instruction) {
+					st, ok := x.(*ssa.Store)
+					if !ok {
+						return
+					}
+					fa2, ok := st.Addr.(*ssa.FieldAddr)
+					if !ok || fa2.Field != fa.Field || fa2.X != fa.X || !isRangeKey(st.Val) {
+						return
+					}
+					if instrDominates(x, in) {
+						set = true
+					}
+				})
+				if set {
+					r.ok("DISP-ENABLED", k2, w.PosOf(in), "asks about a field set from the candidate's key beforehand")
+				} else {
+					r.violation("DISP-ENABLED", k2, w.PosOf(in), "RuleEnabled is asked about a field of the candidate rule that has not (on every path) been set from the key under which the rule was found: for a freshly compiled rule the field is empty, no `disabled` flag is found under the empty id, and a disabled rule fires")
+				}
+				return
+			}
+		}
+		r.exempt("DISP-ENABLED", k2, w.PosOf(in), "provenance of the id not recognised (neither the range key nor a field load): not decided by this clause")
+	})
 }
 
 func ruleRemFlag(w *World, r *Report) {
